@@ -137,6 +137,14 @@ _SHAPES = [[], [], [], [1], [2], [3], [5], [1, 1], [2, 3], [3, 2], [1, 3], [3, 1
            [1, 1, 1], [2, 2, 3], [2, 3, 2, 2], [1, 2, 1, 3], [3, 3, 3, 3], [6, 6]]
 _S_SHAPE = st.sampled_from(_SHAPES)
 
+# memory layout of an array handed to atomman (same shape, same numbers; the oracle builds it, see c10.lay):
+#   C   C-contiguous copy                         T   transposed view: ascontiguousarray(a.T).T (x, y, z columns stacked)
+#   F   Fortran-ordered copy                      X   last two axes swapped in memory (rank >= 3: neither C nor F ordered)
+#   S   every second element of a larger C array  SF  every second element of a larger Fortran-ordered array
+LAYOUTS = ('C', 'T', 'F', 'S', 'SF', 'X')
+S_LAYOUT = st.sampled_from(['C', 'C', 'T', 'T', 'F', 'F', 'S', 'SF', 'X'])
+S_LAYOUT1 = st.sampled_from(['C', 'C', 'S'])          # rank 1: only a stride can differ
+
 
 @st.composite
 def value_cases(draw):
@@ -149,15 +157,33 @@ def value_cases(draw):
         err = _nested(draw, shape, _S_ERR)
     w, r = draw(S_CFG_PAIR)
     return {'shape': shape, 'kind': kind, 'unit': unit, 'v': v, 'error': err,
-            'form': draw(_sf(('np', 'np', 'np0d', 'py',))), 'enc': draw(S_ENC), 'cfgW': w, 'cfgR': r}
+            'form': draw(_sf(('np', 'np', 'np0d', 'py',))), 'layout': draw(S_LAYOUT), 'elayout': draw(S_LAYOUT),
+            'enc': draw(S_ENC), 'cfgW': w, 'cfgR': r}
 
 
 # ----------------------------------------------------------------------------- box
+# prior history of the Box that receives the model (ctor False): it exists with a different cell and its derived
+# quantities have been used: 'recip' reciprocal_vects read, 'c2r' a Cartesian->relative conversion, 'scaled' a
+# box-scaled System.model of the System that holds it ([] = never used, cache empty)
+_S_USES = st.sampled_from([[], ['recip'], ['c2r'], ['c2r'], ['recip', 'c2r'], ['c2r', 'recip']])
+_S_USES_HOST = st.sampled_from([[], ['scaled'], ['scaled'], ['recip'], ['c2r'], ['recip', 'scaled'], ['c2r', 'scaled', 'recip']])
+_S_CTOR = st.sampled_from([True, False, False])
+_S_NPTS = st.sampled_from([1, 2, 3, 4])
+
+
 @st.composite
 def box_cases(draw):
     w, r = draw(S_CFG_PAIR)
-    return {'cell': draw(_S_CELL_SCALED), 'unit': draw(S_BOX_UNIT),
-            'enc': draw(S_ENC), 'ctor': draw(S_BOOL), 'cfgW': w, 'cfgR': r}
+    cell = draw(_S_CELL_SCALED)
+    ctor = draw(_S_CTOR)
+    prior = None
+    if not ctor:
+        pc = draw(_S_CELL_SCALED)
+        host = draw(S_BOOL)
+        # a prior cell equal to the loaded one would hide a stale cache: None = the fixed 7 x 8 x 9 cell at (1, 1, 1)
+        prior = {'cell': None if pc == cell else pc, 'host': host, 'uses': draw(_S_USES_HOST if host else _S_USES)}
+    return {'cell': cell, 'unit': draw(S_BOX_UNIT), 'enc': draw(S_ENC), 'ctor': ctor, 'prior': prior,
+            'pts': _nested(draw, [draw(_S_NPTS), 3], _S_REL), 'cfgW': w, 'cfgR': r}
 
 
 # ----------------------------------------------------------------------------- atoms / systems
@@ -198,7 +224,8 @@ def _props(draw, natoms, scaled_ok):
             vals = _nested(draw, shape, _I)
         else:
             vals = _nested(draw, shape, _S)
-        props.append({'name': name, 'kind': kind, 'shape': shape, 'unit': unit, 'values': vals})
+        props.append({'name': name, 'kind': kind, 'shape': shape, 'unit': unit, 'values': vals,
+                      'layout': draw(S_LAYOUT if rest else S_LAYOUT1)})
     return props
 
 
@@ -221,7 +248,7 @@ def atoms_cases(draw):
         if draw(_S_0_3) == 0 and len(sel) > 2:
             sel = sel[:draw(_si(1, len(sel) - 1))]
     return {'natoms': n, 'atype': [draw(_si(1, ntypes)) for _ in range(n)],
-            'pos': _nested(draw, [n, 3], _S_POS),
+            'pos': _nested(draw, [n, 3], _S_POS), 'pos_layout': draw(S_LAYOUT), 'atype_layout': draw(S_LAYOUT1),
             'pos_unit': draw(S_LEN_UNIT_OR_NONE), 'props': props, 'select': sel,
             'how': draw(_sf(('prop_unit', 'prop_name',))), 'enc': draw(S_ENC), 'cfgW': w, 'cfgR': r}
 
@@ -269,7 +296,8 @@ def system_cases(draw):
     if route in ('dump_f', 'dump_path') and enc == 'dict':
         enc = 'xml'
     case = {'cell': draw(_S_CELL), 'pbc': draw(gens.pbcs), 'natoms': n, 'atype': atype,
-            'rel': _nested(draw, [n, 3], _S_REL), 'symbols': symbols, 'masses': masses,
+            'rel': _nested(draw, [n, 3], _S_REL), 'pos_layout': draw(S_LAYOUT), 'atype_layout': draw(S_LAYOUT1),
+            'symbols': symbols, 'masses': masses,
             'pos_unit': draw(_sf((None, 'scaled', 'scaled', 'angstrom', 'nm', 'm',))),
             'box_unit': draw(_sf((None, 'angstrom', 'nm', 'm', 'aBohr',))),
             'props': props, 'select': sel, 'how': draw(_sf(('prop_unit', 'prop_name',))),
